@@ -93,7 +93,18 @@ func classifyC(s string) (string, ckey, bool) {
 const consumerBuf = 64
 const maxYields = 40 // per partition and channel, below consumerBuf: a yield never blocks
 
-func runConsumer(s cscript) ([]cobs, *cf.Monitor) {
+func runConsumer(s cscript) (out []cobs, mon *cf.Monitor) {
+	if !watchdog(func() { out, mon = runConsumer1(s) }) {
+		out = make([]cobs, len(s.Acts))
+		for i := range out {
+			out[i].Obs = "OPanic"
+		}
+		return out, &cf.Monitor{Signature: "consumer:hang", What: "an action on the mock consumer blocked (yields stay below the channel buffer size, receives are non-blocking)"}
+	}
+	return
+}
+
+func runConsumer1(s cscript) ([]cobs, *cf.Monitor) {
 	rep := &reporter{}
 	cfg := sarama.NewConfig()
 	cfg.ChannelBufferSize = consumerBuf
